@@ -164,7 +164,7 @@ CLAIM = {
             "rejection and the registration of the bundler with nothing fallible before it is stored, that both close sites (message handler and "
             "the engine's cleanup loop) end the closed run's span with that run's status, that abort / halt end and remove all open spans, and "
             "that the container has closed-world writers. OpenTelemetry's own behaviour is not decided.",
-    "technique": "keyed acquire/release pairing with reaching definitions of the key; statement-order rule; ownership table",
+    "technique": "keyed acquire/release pairing with reaching definitions of the key; CFG must-pass (span ended only after a successful close); case evaluation of the message's status / reason lookup; ownership table",
 }
 
 RE = "run_engine.py"
